@@ -61,6 +61,12 @@ def run_c06(tier, replay=None):
             hists = random.Random(vlib.seed() + mi).sample(hists, num)
         for i, h in enumerate(hists):
             abstract.append({"id": "sim_%s_%d" % (name, i), "mode": name, "discard": discard, "datagram": datagram, "abs": h})
+    # long streams (several times the reader's buffer), composed by the driver from the token alphabet of Link.tla and
+    # split into equal reads of many sizes: the reader's buffer fills up and is compacted with a frame in flight
+    long_ids = set()
+    for a in long_streams(tier, rnd):
+        abstract.append(a)
+        long_ids.add(a["id"])
     # committed witnesses
     with open(vlib.ROOT + "/corpus/link_abstract.json") as f:
         for w in json.load(f):
@@ -72,6 +78,8 @@ def run_c06(tier, replay=None):
     by_id = {}
     for a in abstract:
         s = linkconc.link_scenario(a["id"], a["abs"], a["discard"], a["datagram"], rnd)
+        if s is not None and (a["id"] in long_ids or a.get("small_buffer")):
+            s["cfg"]["max_fragment"] = 249        # read buffer of one maximum frame (292 bytes)
         if s is not None:
             scen.append(s)
             by_id[a["id"]] = a
@@ -156,6 +164,28 @@ def run_c06(tier, replay=None):
     for ln in out_lines:
         print(ln)
     return rc
+
+
+def long_streams(tier, rnd):
+    out = []
+    sizes = [3, 7, 11, 17, 23, 29, 37, 43, 82, 97, 143, 150] if tier == "quick" else list(range(1, 160, 3))
+    reps = 3 if tier == "quick" else 6
+    for name, discard, datagram in MODES:
+        if datagram:
+            continue
+        for c in sizes:
+            for r in range(reps):
+                stream = []
+                for _ in range(45):
+                    k = rnd.choice([1, 2])
+                    n = 10 if k == 1 else 13
+                    for o in range(1, n + 1):
+                        cls = 1 if (o == 1 or (o == 3 and k == 1)) else 2 if o == 2 else 0
+                        stream.append({"c": cls, "f": k, "o": o, "bad": False})
+                total = len(stream)
+                out.append({"id": "long_%s_%d_%d" % (name, c, r), "mode": name, "discard": discard, "datagram": datagram,
+                            "small_buffer": True, "abs": {"stream": stream, "chunks": [c] * (total // c)}})
+    return out
 
 
 def sweep_scenarios(tier, rnd):
